@@ -95,10 +95,48 @@ def uses_all_inputs(ctx, rule, d, r):
             # shortcut for constant data): the input decides both whether this value is returned and which cells are missing
             deps = frozenset().union(*[r.cond_deps.get(id(t_), frozenset()) for t_, p_ in r.return_conds.get(id(s), ())]) if r.return_conds.get(id(s)) else frozenset()
             miss = frozenset(t for t in miss if not (t in v.M and t in deps))
+        if miss and any(t.endswith("#r") for t in miss):
+            # a return under `len(<the input list>) == 1`: there are no inputs after the first on that path
+            single = _single_input_lists(d, r.return_conds.get(id(s), ()))
+            miss = frozenset(t for t in miss if not (t.endswith("#r") and t[:-2] in single))
         if miss:
             ctx.violate(rule, con, d.module.rel, line_of(s), "the returned value does not depend on %s: that input is dropped from the computation" % tok_text(miss))
         else:
             ctx.hold(rule, con, d.module.rel, line_of(s), "depends on %s" % tok_text(want))
+
+
+def _single_input_lists(d, conds):
+    """names of list inputs that hold exactly one element under the branch conditions `conds` ((test, polarity), ...):
+    a conjunct `len(N) == 1` / `len(N) < 2` / `len(N) <= 1` taken true, N bound once from kwargs[<input>] (directly or through a
+    one-generator comprehension over it without a filter)"""
+    import ast
+
+    out = set()
+    defs = K.single_defs(d.execute)
+
+    def input_of(e, depth=0):
+        if isinstance(e, ast.Subscript) and isinstance(e.value, ast.Name) and e.value.id == (d.execute.node.args.kwarg.arg if d.execute.node.args.kwarg else None) and isinstance(e.slice, ast.Constant):
+            return e.slice.value
+        if isinstance(e, (ast.ListComp, ast.GeneratorExp)) and len(e.generators) == 1 and not e.generators[0].ifs:
+            return input_of(e.generators[0].iter, depth + 1)
+        if isinstance(e, ast.Call) and isinstance(e.func, ast.Name) and e.func.id in ("list", "tuple") and len(e.args) == 1:
+            return input_of(e.args[0], depth + 1)
+        if isinstance(e, ast.Name) and depth < 4 and e.id in defs:
+            return input_of(defs[e.id], depth + 1)
+        return None
+
+    for t_, pol in conds:
+        if not pol:
+            continue
+        for c in (t_.values if isinstance(t_, ast.BoolOp) and isinstance(t_.op, ast.And) else [t_]):
+            if isinstance(c, ast.Compare) and len(c.ops) == 1 and isinstance(c.left, ast.Call) and isinstance(c.left.func, ast.Name) and c.left.func.id == "len" and len(c.left.args) == 1 \
+                    and isinstance(c.comparators[0], ast.Constant):
+                k, op = c.comparators[0].value, c.ops[0]
+                if (isinstance(op, ast.Eq) and k == 1) or (isinstance(op, ast.Lt) and k == 2) or (isinstance(op, ast.LtE) and k == 1):
+                    nm = input_of(c.left.args[0])
+                    if nm:
+                        out.add(nm)
+    return out
 
 
 def no_kept_state(ctx, idx, rule, names=None, why=""):
